@@ -556,6 +556,13 @@ class Holder:
 HOLD = Holder()
 def k7(ds): return ds.Select(lambda e: NSP.DC(e.x, c=e.y).c + NSP.NT(e.x, e.y).b)
 def k8(ds): return ds.Select(lambda e: Holder.DC(b=e.y, a=e.x)['a'] + HOLD.NT(e.x, b=e.y).c)
+# a record built with KEYWORD fields, handed to a helper / a called lambda that uses its parameter twice (the constructor call then
+# stands at two places of the query)
+def both_c06(r): return (r.a + r.b, r.b)
+def k9(ds): return ds.Select(lambda e: both_c06(DC(b=e.y, a=e.x)))
+def k10(ds): return ds.Select(lambda e: (lambda r: r.c + r.a + r.c)(NT(c=e.met, b=e.y, a=e.x)))
+def p9(): return lambda e: both_c06(DC(b=e.y, a=e.x))
+def p10(): return lambda e: (lambda r: r.c + r.a + r.c)(NT(c=e.met, b=e.y, a=e.x))
 def p7(): return lambda e: NSP.DC(e.x, c=e.y).c + NSP.NT(e.x, e.y).b
 def p8(): return lambda e: Holder.DC(b=e.y, a=e.x).a + HOLD.NT(e.x, b=e.y).c
 def p0(): return lambda e: DC(e.x, c=e.y).c
@@ -572,7 +579,7 @@ def ctor_through_operators(ctx, rnd):
 
     m = modgen.load(CTOR_FILE, "c06k")
     data = dataset(rnd, 3, 3)
-    for i in (0, 1, 2, 3, 4, 7, 8):
+    for i in (0, 1, 2, 3, 4, 7, 8, 9, 10):
         ctx.case(f"ctor-operator:k{i}", True)
         pyf = getattr(m, f"p{i}")()
         try:
